@@ -123,7 +123,7 @@ def c01b(ctx, tu):
             return ("sym", "send_" + lib.severity_of(ev["args"][0], env or {}))
         if n in ("abort", "std::abort", "std::terminate"):
             return ("term", "abort")
-        if n in FORBIDDEN_ON_REJECT:
+        if n in FORBIDDEN_ON_REJECT or n == lib.side_effect_action(tu):
             return ("sym", ("effect", n))
         if lib.user_callback(tu, ev):
             return ("skip",)
@@ -136,7 +136,7 @@ def c01b(ctx, tu):
         if sym in ("send_nonfatal", "send_?"):
             return (sends, bad or "the no-match report is not sent with severity fatal")
         if isinstance(sym, tuple) and sym[0] == "effect":
-            return (sends, bad or "rejecting a call %s (%s)" % (FORBIDDEN_ON_REJECT[sym[1]], sym[1]))
+            return (sends, bad or "rejecting a call %s (%s)" % (FORBIDDEN_ON_REJECT.get(sym[1], "runs a SIDE_EFFECT"), sym[1]))
         return None
 
     for fn in tu.need(A["no_match"], 5):
